@@ -5,3 +5,17 @@ add("C19", "reference-parser oracle over generated + exhaustively enumerated str
     "denotation; each malformed class must raise ValueError; URI spellings must split identically; string "
     "and tuple fetches must agree on real coolers. Exploration: inputs are sampled apart from the stated bound.",
     "DESIGN.md section 4 C19")
+add("C20", "reference-model oracle + postcondition probe on get_binsize; exhaustive enumeration of small bin tables",
+    "binnify / makebins / parse_bins outputs are compared with ref_binnify on generated chromosome-size tables; "
+    "get_binsize / get_chromsizes are driven over ALL valid bin tables inside the tier bound and over generated "
+    "tables of every family (incl. last-bin-longer trap tables), a probe on the real get_binsize checks "
+    "'returned b => every bin is [k*b, min((k+1)b, len))' on every call any workload makes, and Cooler.binsize / "
+    "info['bin-type'] are checked on created coolers. Exhaustive inside the bound, sampled outside.",
+    "DESIGN.md section 4 C20")
+add("C04", "linear-scan overlap oracle over exhaustively enumerated (start,end) on real coolers",
+    "For each generated bin table a real cooler is created; for every chromosome up to the tier's length bound "
+    "every (start,end) is driven through extent/offset/bins.fetch/pixels.fetch/matrix.fetch/"
+    "GenomeSegmentation.fetch/bedslice in several region spellings and compared with an independent linear "
+    "scan over the bin list and with the dense reference matrix; a probe on region_to_extent asserts the "
+    "extent never leaves the chromosome. Exhaustive for small chromosomes, edge-biased sampling above.",
+    "DESIGN.md section 4 C04")
